@@ -109,6 +109,27 @@ impl Same for Item { fn same(&self, o: &Self) -> bool { self == o } }
 enum Shape { Unit, Other, New(i64), NewS(String), Tup(i32, String), Rec { w: u64, h: Option<i8> } }
 impl Same for Shape { fn same(&self, o: &Self) -> bool { self == o } }
 
+// types that share their name with a type of another module (serde hands a serialiser the bare name only)
+mod billing {
+    use serde::{Deserialize, Serialize};
+    #[derive(Serialize, Deserialize, Debug, Clone, PartialEq)]
+    pub enum Kind { Created, Archived, Amount(i64), Pair(i8, String), Rec { a: u8 } }
+    #[derive(Serialize, Deserialize, Debug, Clone, PartialEq)]
+    pub struct Record { pub id: i64, pub label: String }
+    #[derive(Serialize, Deserialize, Debug, Clone, PartialEq)]
+    pub struct Unit(pub u16, pub u16);
+}
+mod audit {
+    use serde::{Deserialize, Serialize};
+    #[derive(Serialize, Deserialize, Debug, Clone, PartialEq)]
+    pub enum Kind { Deleted, Restored, Count(i64), Pair(i8, String), Rec { a: u8 } }
+    #[derive(Serialize, Deserialize, Debug, Clone, PartialEq)]
+    pub struct Record { pub label: String, pub id: i64, pub extra: bool }
+    #[derive(Serialize, Deserialize, Debug, Clone, PartialEq)]
+    pub struct Unit(pub u16, pub u16);
+}
+same_eq!(billing::Kind, billing::Record, billing::Unit, audit::Kind, audit::Record, audit::Unit);
+
 #[derive(Serialize, Deserialize, Debug, Clone, PartialEq)]
 struct Wrapper(i64);
 impl Same for Wrapper { fn same(&self, o: &Self) -> bool { self == o } }
@@ -381,6 +402,21 @@ fn main() {
     rep.sample(json!({"type": "char", "values": if thorough { "all 1 112 064 scalar values" } else { "all below U+0800 and every plane boundary" }}));
     let shapes = derived_struct_shapes(rep);
     rep.set_extra("derived_struct_shapes", shapes);
+    // same-named types of two modules, each value of one right after each value of the other on this thread, both ways round
+    {
+        let bk = vec![billing::Kind::Created, billing::Kind::Archived, billing::Kind::Amount(-5), billing::Kind::Pair(1, "x".into()), billing::Kind::Rec { a: 7 }];
+        let ak = vec![audit::Kind::Deleted, audit::Kind::Restored, audit::Kind::Count(9), audit::Kind::Pair(2, "y".into()), audit::Kind::Rec { a: 8 }];
+        for round in 0..2 {
+            for b in &bk { for a in &ak {
+                if round == 0 { check(&rep, "billing::Kind", b); check(&rep, "audit::Kind", a); } else { check(&rep, "audit::Kind", a); check(&rep, "billing::Kind", b); }
+                check_dist_header(&rep, "billing::Kind", b); check_dist_header(&rep, "audit::Kind", a);
+            } }
+            let (br, ar) = (billing::Record { id: 1 << 40, label: "b".into() }, audit::Record { label: "a".into(), id: -1, extra: true });
+            if round == 0 { check(&rep, "billing::Record", &br); check(&rep, "audit::Record", &ar); } else { check(&rep, "audit::Record", &ar); check(&rep, "billing::Record", &br); }
+            check(&rep, "billing::Unit", &billing::Unit(1, 65535)); check(&rep, "audit::Unit", &audit::Unit(65535, 1));
+            check(&rep, "Vec<billing::Kind> then Vec<audit::Kind>", &bk); check(&rep, "Vec<audit::Kind>", &ak);
+        }
+    }
     // standard-library types whose serde form depends on Serializer::is_human_readable (both sides must agree on it)
     {
         use std::net::{IpAddr, Ipv4Addr, Ipv6Addr, SocketAddr, SocketAddrV4, SocketAddrV6};
